@@ -87,13 +87,14 @@ inductive CreatorErr where
   | check (e : CheckErr)            -- raised by the effect that checks the constructor
 deriving DecidableEq, Repr
 
-/-- rendering `ModelCreator(model, model_params)`: the parameters for (re-)creating the model and the inputs -/
-def modelCreator (sig : List Param) (ps : List (String × ParamVal)) :
+/-- rendering `ModelCreator(model, model_params, extra_keywords=extra)`: the parameters for (re-)creating the model
+    and the inputs -/
+def modelCreator (sig : List Param) (ps : List (String × ParamVal)) (extra : List String := []) :
     Except CreatorErr (List (String × Option Val) × List Widget) :=
   match userInputs (splitParams ps).1 with
   | .error t => .error (.unsupported t)
   | .ok ws =>
-    match creatorCheck sig (ps.map fun kv => (kv.1, kv.2.toPy)) with
+    match creatorCheck sig (ps.map fun kv => (kv.1, kv.2.toPy)) extra with
     | .error e => .error (.check e)
     | .ok () => .ok (initialParams ps, ws)
 
